@@ -406,6 +406,8 @@ def _eval_gifti(col, case):
     try:
         v, t = cube() if case["mesh"] == "cube" else tetra()
         va = np.array(v, dtype=np.float32) * 0.5 + np.float32(0.1)
+        if case.get("offset"):
+            va = va + np.float32(case["offset"])
         ta = np.array(t, dtype=np.int32)
         img = gifti.GiftiImage(darrays=[
             gifti.GiftiDataArray(va, intent="NIFTI_INTENT_POINTSET",
@@ -578,6 +580,20 @@ def gifti_cases():
                                 "mesh_dir": mesh_dir,
                                 "name": "frag1" if tr is ident else None,
                                 "opts": opts})
+    # a mesh far from the origin re-centred by the transform (coefficients
+    # that are not dyadic fractions; the result is small against the terms
+    # that cancel), in the 12- and the 16-number spelling, with a mirror
+    recentre = [1, 0, 0, -999.9, 0, 1, 0, -1000.3, 0, 0, 1, -1000.05]
+    recentre_m = [-1, 0, 0, 1000.7, 0, 1, 0, -999.9, 0, 0, 1, -1000.3,
+                  0, 0, 0, 1]
+    shear = [0.1, 0.7, 0, 0.3, 0, 0.3, 0.9, -0.6, 1.1, 0, 0.7, 0.2]
+    for meshname in ("tetra", "cube"):
+        for tr, off in ((recentre, 1000.0), (recentre + [0, 0, 0, 1], 1000.0),
+                        (recentre_m, 1000.0), (shear, None),
+                        (shear, 1000.0)):
+            out.append({"kind": "gifti", "mesh": meshname, "transform": tr,
+                        "info_mesh": None, "mesh_dir": None, "name": None,
+                        "opts": [], "offset": off})
     # default fragment names for input names ending in characters of ".gii"
     for src_name in ("ctx_seg.gii", "hippocampi.gii", "a.g.i.gii",
                      "lh.pial.gii", "gii.gii", "x..gii"):
